@@ -1020,6 +1020,9 @@ fn step_block(w: &mut World, slot: usize, group_accepted: &HashSet<MsgId>) -> Re
                 }
             }
             Err(DeliverError::Full(m)) if m.id == id => break,
+            Err(DeliverError::Closed(m)) if m.id == id => {
+                return Err(viol("C19/closed-without-stop", format!("actor {}: {id:?} returned Closed although nobody stopped or failed the actor (its handler is parked)", l.aid)));
+            }
             Err(e) => return Err(viol("C19/wrong-message-handed-back", format!("fill {id:?}: {:?}", e.into_inner().id))),
         }
     }
@@ -1431,7 +1434,7 @@ fn main() {
          Calls are kept out of bursts that can end the actor unless calls_may_race (1 in 6; that shape is the known finding). \
          Non-trivial = a burst with >= 2 sender threads during which the actor was stopped or failed, or a name used by >= 2 successive actors; distinct = distinct serialised case.",
     );
-    p.quick_cases = 900;
+    p.quick_cases = 750;
     p.thorough_cases = 30000;
     p.replay_repeats = 20;
     p.max_shrink_iters = 60;
@@ -1495,7 +1498,8 @@ fn main() {
         }
         let o = run_case(c);
         match &o {
-            Outcome::Inconclusive { .. } => {
+            Outcome::Inconclusive { why } => {
+                eprintln!("C19: inconclusive case: {why}");
                 HUNG.fetch_add(1, Ordering::SeqCst);
             }
             _ => HUNG.store(0, Ordering::SeqCst),
